@@ -34,7 +34,7 @@ ALL_MSGS = ('{"VC","VS","IC","IS","GREQ","GGRP","INIT","REPLY","PUBKEY",'
             '"SECRET","DONE","NKS","NKC"}')
 ALL_FIELDS = ('{"v","eol","banner","pad","cookie","kex","hostkey","enc_cs",'
               '"enc_sc","mac_cs","mac_sc","cmp_cs","cmp_sc","ff","strict",'
-              '"rest","req","grp","e","f","ks","sig","kt","enc"}')
+              '"rest","req","grp","e","f","ks","sig","kt","enc","menc"}')
 INVS = ['AgreeOrFail', 'BothOrNeither', 'NoDowngrade', 'FirstClientPref',
         'EditDetected', 'Completion']
 
@@ -43,6 +43,7 @@ def write_cfg(name, invariants=(), **consts):
     d = dict(KexType='"dh"', MaxEdits=1, VaryCats='{}', VaryMode='"product"',
              EditListMode='"all"',
              TrustAllSet='{FALSE}', HashOmit='{}', PreferServer='FALSE',
+             SignBlind='FALSE',
              EditMsgs=ALL_MSGS, EditFields=ALL_FIELDS, Emit='FALSE')
     d.update(consts)
     lines = ['CONSTANTS'] + [f'  {k} = {v}' for k, v in d.items()]
@@ -175,11 +176,12 @@ def hostkey_section(ctx, H, quick, rnd, state):
     hk_run(ctx, 'sensitivity: choice kept in the shared pair, interleaved',
            Mode='"shared"', Interleave='TRUE', expect='SigAlgNegotiated',
            invariants=['SigAlgNegotiated'], workers=W)
-    hk_run(ctx, 'sensitivity: choice kept in the shared pair, certificate '
-           'pair, one connection after the other', Mode='"shared"',
-           ServerKeySets='{{"rsacert"}}', ClientAlgs='{"c1", "c256", "c512"}',
-           expect='SigAlgNegotiated', invariants=['SigAlgNegotiated'],
-           workers=W)
+    if not quick:
+        hk_run(ctx, 'sensitivity: choice kept in the shared pair, certificate '
+               'pair, one connection after the other', Mode='"shared"',
+               ServerKeySets='{{"rsacert"}}', ClientAlgs='{"c1", "c256", "c512"}',
+               expect='SigAlgNegotiated', invariants=['SigAlgNegotiated'],
+               workers=W)
     hk_run(ctx, 'sensitivity: sticky pair, one connection after the other',
            Mode='"sticky"', expect='SigAlgNegotiated',
            invariants=['SigAlgNegotiated'], workers=W)
@@ -318,11 +320,12 @@ def main(ctx):
         elm = '"few"' if quick else '"all"'
         tlc_run(ctx, 'dh 1 edit, enc lists vary', KexType='"dh"',
                 VaryCats='{"enc"}', EditListMode=elm, workers=W)
-        tlc_run(ctx, 'gex 1 edit, kex lists vary', KexType='"gex"',
-                VaryCats='{"kex"}', EditListMode=elm, workers=W)
-        tlc_run(ctx, 'rsa 1 edit, mac lists vary, trust-all too',
-                KexType='"rsa"', VaryCats='{"mac"}', EditListMode='"few"',
-                TrustAllSet='{FALSE, TRUE}', workers=W)
+        if not quick:
+            tlc_run(ctx, 'gex 1 edit, kex lists vary', KexType='"gex"',
+                    VaryCats='{"kex"}', EditListMode=elm, workers=W)
+            tlc_run(ctx, 'rsa 1 edit, mac lists vary, trust-all too',
+                    KexType='"rsa"', VaryCats='{"mac"}', EditListMode='"few"',
+                    TrustAllSet='{FALSE, TRUE}', workers=W)
         if not quick:
             tlc_run(ctx, 'dh 2 edits, enc lists vary (few edit lists)',
                     KexType='"dh"', MaxEdits=2, VaryCats='{"enc"}',
@@ -352,6 +355,10 @@ def main(ctx):
                 VaryCats='{"enc"}', EditListMode='"single"',
                 EditMsgs='{"IC", "IS"}', EditFields='{"enc_cs", "enc_sc"}',
                 expect='NoDowngrade', invariants=['NoDowngrade'], workers=W)
+        tlc_run(ctx, 'sensitivity: received mpints read as unsigned',
+                KexType='"gex"', SignBlind='TRUE',
+                EditMsgs='{"GGRP", "INIT", "REPLY"}', expect='EditDetected',
+                invariants=['EditDetected'], workers=W)
         tlc_run(ctx, 'sensitivity: choose_alg prefers the server list',
                 KexType='"dh"', PreferServer='TRUE', MaxEdits=0,
                 VaryCats='{"enc"}', expect='NoDowngrade',
@@ -452,7 +459,11 @@ def main(ctx):
     def replay_case(kex, case, names, variant, run_command=True):
         cl, chk = real_lists(case['c'], names)
         sl, shk = real_lists(case['s'], names)
-        edits = [H.concretise(e, names, variant) for e in case['edits']]
+        try:
+            edits = [H.concretise(e, names, variant, H.family(kex))
+                     for e in case['edits']]
+        except H.NotApplicable:
+            return None
         label = '+'.join(e['label'] for e in edits) or 'no edit'
         o = H.run_handshake(kex, client=cl, server=sl, edits=edits,
                             trust='none' if case['trustall'] else 'known',
@@ -493,6 +504,39 @@ def main(ctx):
                             'ecdh-sha2-nistp384') if k != kex]
         return pool[:2]
 
+    KEXMSGS = ('GREQ', 'GGRP', 'INIT', 'REPLY', 'PUBKEY', 'SECRET', 'DONE')
+
+    def recode_one(kex, ed, cl, sl, chk, shk, names):
+        o = H.run_handshake(kex, client=cl, server=sl,
+                            edits=[dict(ed)], server_hostkeys=shk,
+                            client_hostkey_algs=chk, run_command=False)
+        eff = '+'.join(sorted(set(o.effects))) or 'none'
+        judge(o, None, kex, names, ed['label'],
+              bytelevel=f'{ed["label"]}:{eff}',
+              recipe={'kind': 'recode', 'op': ed['label']})
+        # only another spelling of the same values (or of the padding) may
+        # complete; it must then complete with the same parameters
+        model_compare(o, eff in ('harmless', 'recoded'), kex, ed['label'])
+        ctx.count(('recode', kex, ed['label']))
+        state['traces'] += 1
+        state['recode'][eff, o.completed] = \
+            state['recode'].get((eff, o.completed), 0) + 1
+        return o
+
+    def recode_sweep(kex, msgs, every=1):
+        names = names_for(kex, pick_others(kex))
+        cl, chk = fixed_lists(names)
+        sl, shk = fixed_lists(names)
+        fam = H.family(kex)
+        n = 0
+        for name in msgs:
+            for ed in H.reencoding_edits(name, fam):
+                n += 1
+                if every > 1 and (n + ctx.seed) % every != 0:
+                    continue
+                recode_one(kex, ed, cl, sl, chk, shk, names)
+
+    state['recode'] = {}
     if ctx.replay_path:
         import json
         with open(ctx.replay_path) as f:
@@ -511,6 +555,21 @@ def main(ctx):
                 print(f'connection {i}: completed={o.completed} negotiated '
                       f'on the wire={o.neg} key={o.ks_type} signed with='
                       f'{o.sig_alg} verifies={o.verified}')
+            ctx.traces_validated(1)
+            ctx.level = 'exploration'
+            return
+        if rp['kind'] == 'recode':
+            names = names_for(kex, pick_others(kex))
+            cl, chk = fixed_lists(names)
+            sl, shk = fixed_lists(names)
+            mname = rp['op'].split('.')[0].split(':')[0]
+            ed = [e for e in H.reencoding_edits(mname, H.family(kex))
+                  if e['label'] == rp['op']][0]
+            o = recode_one(kex, ed, cl, sl, chk, shk, names)
+            print(f'replayed {rp["op"]} on {kex}: completed={o.completed} '
+                  f'client_error={o.client_exc!r} server={o.server_lost} '
+                  f'effects={o.effects} session ids equal='
+                  f'{o.sid_c == o.sid_s and o.sid_c is not None}')
             ctx.traces_validated(1)
             ctx.level = 'exploration'
             return
@@ -557,6 +616,8 @@ def main(ctx):
                     continue
             o = replay_case(kex, case, names, variant=ci + ki,
                             run_command=not heavy)
+            if o is None:
+                continue        # edit not applicable to this family
             sampled += 1
             if sampled % 211 == 1:
                 ctx.sample({'kex': kex, 'edits': case['edits'],
@@ -712,7 +773,8 @@ def main(ctx):
                       recipe={'kind': 'byte', 'msg': m.name, 'offset': off,
                               'mask': mask, 'narrow': narrow})
                 # model: bound / framing -> fail; harmless -> complete
-                model_compare(o, eff == 'harmless', kex, ed['label'])
+                model_compare(o, eff in ('harmless', 'recoded'), kex,
+                              ed['label'])
                 if o.completed and eff == 'harmless':
                     got, _ = H.negotiated(o)
                     gb, _ = H.negotiated(base)
@@ -750,6 +812,32 @@ def main(ctx):
                     'group15' in kex
                 byte_sweep(kex, 4 if heavy else 1, True, [0x01, 0x80, 0xff],
                            'bytes')
+
+    # ---- 4b. re-encodings and boundary values of every field --------------
+    if quick:
+        recode_sweep('curve25519-sha256', ('IC', 'IS') + KEXMSGS)
+        for kex in main_fams[1:]:
+            recode_sweep(kex, KEXMSGS)
+    else:
+        for kex in avail:
+            if kex in slow:
+                recode_sweep(kex, KEXMSGS, every=3)
+            else:
+                recode_sweep(kex, ('IC', 'IS') + KEXMSGS,
+                             every=1 if kex in main_fams else 2)
+    ctx.notes.append('re-encodings / boundary values by (effect on the '
+                     'values the receiver takes, completed): ' + ', '.join(
+                         f'{k[0]}/{k[1]}={v}' for k, v in
+                         sorted(state['recode'].items())))
+    ctx.require(state['recode'].get(('recoded', True), 0) >= 4 and
+                state['recode'].get(('bound', False), 0) >= 150,
+                f're-encoding sweep is vacuous: {state["recode"]}')
+    ctx.notes.append(
+        'observation (not judged): mpint fields with superfluous leading '
+        'zero octets are accepted; the values e, f, p, g they denote are '
+        'the ones sent, the exchange hash covers the values, both ends '
+        'complete with identical session ids (OpenSSH trims leading zeros '
+        'as well)')
 
     # ---- 5. host key / signature algorithm, histories on one listener ----
     hostkey_section(ctx, H, quick, rnd, state)
